@@ -18,6 +18,9 @@ warnings.filterwarnings("ignore")
 ID = "C11"
 TARGETS = ["Props/C11.vo"]
 TRUSTED = [
+    "second observation point GateCompiler.compile(..., schedule_mode=...): checked by correspondence/oracle only (a "
+    "one-pulse-per-gate user compiler; the windows read back from the compiled tlists/coeffs must equal the model's "
+    "start times); GateCompiler._schedule's reordering and _concatenate_pulses are not modelled here (C12)",
     "the model is a function of one schedule() call (a Scheduler object keeps no state between calls); the harness "
     "checks this on short histories of 2-4 different lists scheduled on ONE Scheduler object, every call compared "
     "with the history-free model and the timetable oracle",
@@ -95,8 +98,59 @@ def rand_gate(rng, N, kinds=None):
     raise AssertionError(k)
 
 
+# number of control qubits of the MATRIX of a library gate (independent copy of the table the fixed commutation rule
+# uses); RZX and unknown (user-defined) names are absent: their qubit order matters
+NUM_CONTROLS = dict.fromkeys(
+    ["X", "Y", "Z", "RX", "RY", "RZ", "H", "SNOT", "SQRTNOT", "S", "T", "R", "QASMU", "PHASEGATE", "IDLE", "SWAP", "ISWAP",
+     "iSWAP", "SQRTSWAP", "SQRTISWAP", "SWAPALPHA", "SWAPalpha", "BERKELEY", "MS"], 0)
+NUM_CONTROLS.update(dict.fromkeys(["CNOT", "CX", "CY", "CZ", "CSIGN", "CS", "CT", "CRX", "CRY", "CRZ", "CPHASE", "FREDKIN"], 1))
+NUM_CONTROLS["TOFFOLI"] = 2
+USER_GATE = "USERG"        # a user-defined two-qubit gate with one parameter (not symmetric, no fixed axis)
+
+
+def canon_roles(spec):
+    """(controls, targets) as Model/Sched.v's instr carries them: the qubits the gate's matrix treats as controls /
+    targets (first nc of controls ++ targets), sorted; for RZX and user-defined names the lists as given"""
+    c = list(spec["controls"] or [])
+    t = list(spec["targets"] or [])
+    nc = NUM_CONTROLS.get(spec["name"])
+    if nc is None:
+        return c, t
+    q = c + t
+    return sorted(q[:nc]), sorted(q[nc:])
+
+
+def all_qubits_ordered(spec):
+    return list(spec["controls"] or []) + list(spec["targets"] or [])
+
+
+def user_gate_matrix(arg):
+    a = float(arg or 0.0)
+    rx = np.array([[np.cos(a / 2), -1j * np.sin(a / 2)], [-1j * np.sin(a / 2), np.cos(a / 2)]])
+    ry = np.array([[np.cos(0.35), -np.sin(0.35)], [np.sin(0.35), np.cos(0.35)]])
+    cnot = np.array([[1, 0, 0, 0], [0, 1, 0, 0], [0, 0, 0, 1], [0, 0, 1, 0]], dtype=complex)
+    return np.kron(rx, np.eye(2)) @ cnot @ np.kron(np.eye(2), ry)
+
+
+USER_LIST_GATE = "USERL"   # a user-defined one-qubit gate with a list of three parameters: Rz(p1) Rx(p0) Rz(p2)
+
+
+def user_list_gate_matrix(arg):
+    a, b, c = [float(x) for x in arg]
+    rz = lambda t: np.array([[np.exp(-0.5j * t), 0], [0, np.exp(0.5j * t)]])
+    rx = np.array([[np.cos(a / 2), -1j * np.sin(a / 2)], [-1j * np.sin(a / 2), np.cos(a / 2)]])
+    return rz(b) @ rx @ rz(c)
+
+
 def mk_gate(spec):
     from qutip_qip.circuit import QubitCircuit
+    if spec.get("generic") or spec["name"] in (USER_GATE, USER_LIST_GATE):
+        # a plain Gate object: any division of the qubits into controls and targets is accepted
+        from qutip_qip.operations import Gate
+        arg = spec.get("arg")
+        return Gate(spec["name"], targets=None if spec["targets"] is None else list(spec["targets"]),
+                    controls=None if spec["controls"] is None else list(spec["controls"]),
+                    arg_value=tuple(arg) if isinstance(arg, list) else arg)
     nq = max([0] + list(spec["targets"] or []) + list(spec["controls"] or [])) + 1
     qc = QubitCircuit(nq)
     arg = spec.get("arg")
@@ -126,6 +180,12 @@ def gate_unitary(spec, N):
         g = mk_gate(spec)
         if spec["name"] == "GLOBALPHASE":
             _UCACHE[key] = np.exp(1j * spec["arg"]) * np.eye(2 ** N)
+        elif spec["name"] == USER_GATE:
+            from qoracle import embed
+            _UCACHE[key] = embed(user_gate_matrix(spec.get("arg")), all_qubits_ordered(spec), N)
+        elif spec["name"] == USER_LIST_GATE:
+            from qoracle import embed
+            _UCACHE[key] = embed(user_list_gate_matrix(spec.get("arg")), all_qubits_ordered(spec), N)
         else:
             _UCACHE[key] = g.get_qobj(dims=[2] * N).full()
     return _UCACHE[key]
@@ -205,6 +265,49 @@ def _one_call(sch, call, SM):
         return "rejected: " + type(e).__name__, perms
 
 
+def run_compile(inp):
+    """Second observation point of C11: GateCompiler.compile(gates, schedule_mode=method) with a user compiler that
+    turns gate k into ONE rectangular pulse of its own channel "p<k>" (amplitude k+1, duration d_k).  The realised
+    timetable is read back from the compiled tlists/coeffs: the window in which channel p<k> is non-zero.
+    -> list of realised start times (Fractions) | 'rejected: ...' | 'malformed: ...'"""
+    from qutip_qip.compiler import GateCompiler, Instruction
+    specs = inp["instrs"]
+    durs = [float(eff_dur(s)) for s in specs]
+
+    class OnePulsePerGate(GateCompiler):
+        def __init__(self):
+            super().__init__(num_qubits=max([q for s in specs for q in spec_qubits(s)] + [0]) + 1)
+            self.k = 0
+            for s in specs:
+                self.gate_compiler[s["name"]] = self.one
+
+        def one(self, gate, args):
+            k = self.k
+            self.k += 1
+            return [Instruction(gate, tlist=durs[k], pulse_info=[("p%d" % k, float(k + 1))])]
+
+    try:
+        comp = OnePulsePerGate()
+        tl, co = comp.compile([mk_gate(s) for s in specs], schedule_mode=inp["method"])
+    except Exception as e:  # noqa
+        return "rejected: " + type(e).__name__
+    if not specs:
+        return [] if tl is None else "malformed: pulses for an empty list"
+    starts = []
+    for k in range(len(specs)):
+        T, C = tl.get("p%d" % k), co.get("p%d" % k)
+        if T is None or len(T) != len(C) + 1:
+            return "malformed: channel p%d has no discrete pulse" % k
+        nz = [i for i, c in enumerate(C) if c != 0.0]
+        if len(nz) != 1 or C[nz[0]] != float(k + 1):
+            return "malformed: channel p%d does not carry exactly its own pulse" % k
+        a, b = Fraction(float(T[nz[0]])), Fraction(float(T[nz[0] + 1]))
+        if b - a != Fraction(durs[k]):
+            return "malformed: pulse %d lasts %s instead of %s" % (k, b - a, Fraction(durs[k]))
+        starts.append(a)
+    return starts
+
+
 def run_real(inp):
     """-> (result | 'rejected: ...', perms used by shuffle in the LAST call).
     inp["history"] (optional): earlier calls (dicts with instrs/mode/random/shuf_seed/as/repeat) made on the SAME
@@ -212,6 +315,8 @@ def run_real(inp):
     history is generated as a case of its own)."""
     import qutip_qip.compiler.scheduler as SM
     from qutip_qip.compiler import Scheduler
+    if inp.get("mode") == "compile":
+        return run_compile(inp), []
     old = SM.shuffle
     try:
         try:
@@ -240,8 +345,7 @@ def cinstr(spec):
         args = [frac_of_float(a) for a in arg]
     else:
         args = [frac_of_float(arg)]
-    t = sorted(spec["targets"] or [])
-    c = sorted(spec["controls"] or [])
+    c, t = canon_roles(spec)
     return "(mkInstr %s %s %s %s %s)" % (
         cstr(spec["name"]), clist([cnat(x) for x in t]), clist([cnat(x) for x in c]),
         clist([cq(a) for a in args]), cq(eff_dur(spec)))
@@ -260,6 +364,9 @@ def coq_case(inp, perms, comm="commutation_rules", fixed=True):
     rnd = cbool(bool(inp.get("random", False)))
     sh = "(sh_perms %s)" % clist([clist([cnat(i) for i in p]) for p in perms])
     perm = cbool(inp["perm"])
+    if inp["mode"] == "compile":     # GateCompiler._schedule uses Scheduler(schedule_mode): default settings
+        return "Eval vm_compute in (option_map (map qq) (sched_pulse %s true %s %s false %s so_asc %s 0 0))." % (
+            comm, ins, alap, sh, cbool(fixed))
     if inp.get("repeat", 0):
         return "Eval vm_compute in (sched_repeat %s %s %s %s %s %s so_asc)." % (
             comm, perm, ins, cnat(inp["repeat"]), alap, sh)
@@ -277,7 +384,7 @@ def canon_model(inp, val):
         return "rejected"
     assert isinstance(val, tuple) and val[0] == "Some", val
     v = val[1]
-    if inp["mode"] == "pulse" and not inp.get("repeat", 0):
+    if inp["mode"] in ("pulse", "compile") and not inp.get("repeat", 0):
         return [Fraction(a, b) for (a, b) in v]
     return v
 
@@ -487,6 +594,51 @@ def gen_history(rng):
     return out
 
 
+def gen_compile(rng):
+    """instruction list for the GateCompiler.compile(schedule_mode=...) entry point (one pulse per gate, own channel).
+    Lists of >= 3 gates with different durations: the time order is then usually a non-involutive permutation of the
+    list order (counted in the evidence)."""
+    N = rng.choice([2, 3, 3, 4, 5])
+    n = rng.randint(3, 8)
+    kinds = rng.choice([None, None, ["CNOT", "CNOT", "X", "RX", "Z", "RZ", "RZ", "SNOT"]])
+    specs = [rand_gate(rng, N, kinds) for _ in range(n)]
+    specs = with_durations(rng, specs, rng.choice(["two", "any", "any", "nano", "nano-mixed", "nano-big", "extreme"]))
+    for x in specs:
+        x.pop("how", None)
+    return dict(instrs=specs, method=rng.choice(["ASAP", "ALAP"]), perm=True, random=False, shuf_seed=0, mode="compile")
+
+
+PARAM_ALPHABET = [0.5, 1.25]     # small on purpose: equal-prefix / equal-suffix / fully equal parameter tuples occur
+
+
+def gen_multiparam(rng):
+    """same-name gates with SEVERAL parameters (R, QASMU, MS, a user gate with a list argument) on the same targets,
+    parameter tuples from a two-letter alphabet, with two duration values so that the priority (longer distance to
+    the end first) puts the later gate first under ASAP and the earlier one first under ALAP"""
+    N = rng.choice([1, 2, 2, 3])
+    n = rng.randint(2, 6)
+    fam = rng.choice(["QASMU", "QASMU", USER_LIST_GATE, "R", "MS"] if N >= 2 else ["QASMU", "QASMU", USER_LIST_GATE, "R"])
+    a = lambda: rng.choice(PARAM_ALPHABET)
+    specs = []
+    pair = sorted(rng.sample(range(N), 2)) if N >= 2 else None
+    q0 = rng.randrange(N)
+    for _ in range(n):
+        r = rng.random()
+        if r < 0.75:
+            if fam == "MS":
+                specs.append(dict(name="MS", targets=list(pair), controls=None, arg=[a(), a()]))
+            elif fam == "R":
+                specs.append(dict(name="R", targets=[q0], controls=None, arg=[a(), a()]))
+            else:
+                specs.append(dict(name=fam, targets=[q0], controls=None, arg=[a(), a(), a()]))
+        else:
+            specs.append(rand_gate(rng, max(N, 2), ["X", "RZ", "CNOT", "SNOT", "QASMU", "R"]) if N >= 2
+                         else dict(name=rng.choice(["X", "Z", "SNOT"]), targets=[0], controls=None, arg=None))
+    specs = with_durations(rng, specs, rng.choice(["two", "two", "any", "nano", "nano-mixed"]))
+    return dict(instrs=specs, method=rng.choice(["ASAP", "ALAP"]), perm=rng.random() < 0.85,
+                random=rng.random() < 0.2, shuf_seed=rng.randrange(10 ** 6), mode="pulse")
+
+
 def rel_tol(inp):
     """tolerance for start times that went through inexact float sums: relative to the total duration (an absolute
     tolerance would hide errors on nanosecond-scale schedules)"""
@@ -543,6 +695,13 @@ def correspond(ctx):
     for _ in range(ctx.n(350, 1500)):
         for inp in gen_history(rng):
             exact.append(("history-call-%d" % (len(inp.get("history", [])) + 1), inp))
+    # second observation point: GateCompiler.compile(..., schedule_mode=...) with a one-pulse-per-gate user compiler;
+    # the realised windows must be the model's start times
+    for _ in range(ctx.n(350, 1500)):
+        exact.append(("compile-entry-point", gen_compile(rng)))
+    # several-parameter gates with parameter tuples from a small alphabet (equal suffix / prefix / equal tuples)
+    for _ in range(ctx.n(500, 2000)):
+        exact.append(("multi-parameter-same-target", gen_multiparam(rng)))
     # exhaustive small alphabet, two durations
     ex = list(exhaustive_inputs(ctx.n(2, 4)))
     if not ctx.thorough:
@@ -571,10 +730,17 @@ def correspond(ctx):
         r = "rejected" if isinstance(res, str) else res
         if r != mod:
             corr.disagree(inp, show(res), show(mod), "Sched model vs Scheduler.schedule (%s)" % inp["mode"])
-        if inp["mode"] == "pulse" and not isinstance(res, str):
+        if inp["mode"] in ("pulse", "compile") and not isinstance(res, str):
             bad = oracle_timetable(inp, res)
             if bad:
                 corr.oracle_fail(inp, dict(start_times=show(res), detail=bad[1]), "a valid timetable", bad[0])
+            if inp["mode"] == "compile" and isinstance(mod, list) and len(mod) == len(res):
+                order = sorted(range(len(mod)), key=lambda i: (mod[i], i))
+                if any(order[order[i]] != i for i in range(len(order))):
+                    corr.tally("compile: time order is a non-involutive permutation of list order")
+        elif inp["mode"] == "compile" and isinstance(res, str) and (res.startswith("malformed") or any(spec_qubits(x) for x in inp["instrs"])):
+            corr.oracle_fail(inp, res, "every compiled pulse occupies its own scheduled window",
+                             "GateCompiler.compile(schedule_mode=...) does not realise a timetable")
 
     # oracle-only stream: longer lists (set iteration order not tied), continuous durations
     n_long = 0
@@ -631,7 +797,7 @@ def replay(ctx, rec):
     res, _ = run_real(inp)
     if isinstance(res, str):
         return True
-    if inp.get("mode", "pulse") != "pulse":
+    if inp.get("mode", "pulse") not in ("pulse", "compile"):
         return False
     return oracle_timetable(inp, res, rel_tol(inp)) is not None
 
@@ -642,11 +808,14 @@ def search(ctx, broken):
     rng = ctx.rng
     cands += [gen_input(rng, 10, mode="pulse") for _ in range(2000)]
     cands += [i for _ in range(400) for i in gen_history(rng) if i["mode"] == "pulse"]
+    cands += [gen_compile(rng) for _ in range(600)] + [gen_multiparam(rng) for _ in range(600)]
     for inp in cands:
         res, _ = run_real(inp)
         if isinstance(res, str):
             if any(spec_qubits(s) for s in inp["instrs"]):
                 out.append(dict(input=inp, observed=res, expected="start times", what="scheduler raised on a valid instruction list"))
+            if len(out) >= 3:
+                break
             continue
         bad = oracle_timetable(inp, res, rel_tol(inp))
         if bad:
